@@ -15,7 +15,7 @@ DISPATCH = {
     "C04": ("checks_csr", "run"), "C12": ("checks_casts", "run"), "C11": ("checks_alloc", "run"), "C20": ("checks_pe", "run"), "C18": ("checks_kernel", "run"), "C15": ("checks_pipeline", "run"), "C13": ("checks_barrier", "run"), "C14": ("checks_dispatch", "run"), "C05": ("checks_dma", "run"), "C08": ("checks_regfile", "run"), "C02": ("checks_stream", "run"), "C09": ("checks_memlayout", "run"), "C19": ("checks_canon", "run"), "C03": ("checks_sched", "run"), "C16": ("checks_sched", "run"), "C10": ("checks_layout", "run"), "C17": ("checks_loops", "run"),
     "C01": ("checks_accfg", "run"), "C06": ("checks_accfg", "run"), "C07": ("checks_accfg", "run"),
     # beyond the listed properties (harness/checks_extra.py; evidence/extra/; not in MANIFEST.checks)
-    "E01": ("checks_extra", "run"), "E02": ("checks_extra", "run"), "E03": ("checks_extra", "run"), "E04": ("checks_extra", "run"),
+    "E01": ("checks_extra", "run"), "E02": ("checks_extra", "run"), "E03": ("checks_extra", "run"), "E04": ("checks_extra", "run"), "E05": ("checks_extra", "run"),
 }
 
 
